@@ -17,3 +17,25 @@ package types
 //@   requires ms(*endTime) > ms(startTime)
 //@   ensures !res.IsNil() && res == linSched(m.Amount, startTime, *endTime, blockTime)
 //@   prop C02
+//@
+//@ // exponential-step schedule: E(j) is the amount of epoch j, S(n) the sum of the first n epochs
+//@ spec func expE(A int, m int, j int) int = j <= 0 ? A * P : chopRound(expE(A, m, j - 1) * m)
+//@ spec func expS(A int, m int, n int) int = n <= 0 ? 0 : expS(A, m, n - 1) + expE(A, m, n - 1)
+//@ spec func expSched(A int, m int, step int, s int, e int, hasEnd bool, t int) int =
+//@   let now = ((hasEnd && t > e) ? e : t) in
+//@   let n = tquo(now - s, step) in
+//@   expS(A, m, n) + tquo(expE(A, m, n) * (now - s - n * step), step)
+//@
+//@ func (m *ExponentialStepMinting) AmountToMint(logger, startTime, endTime, blockTime) (res)
+//@   requires m != nil && !m.Amount.IsNil() && !m.AmountMultiplier.IsNil()
+//@   requires timeOK(startTime) && timeOK(blockTime) && (endTime != nil ==> timeOK(*endTime))
+//@   requires m.StepDuration > 0 && startTime <= blockTime && (endTime != nil ==> startTime <= *endTime)
+//@   ensures !res.IsNil()
+//@   ensures res == expSched(m.Amount, m.AmountMultiplier, m.StepDuration, startTime, *endTime, endTime != nil, blockTime)
+//@   prop C02
+//@ loop ExponentialStepMinting.AmountToMint#1
+//@   invariant 0 <= i && i <= numOfPassedEpochs
+//@   invariant !amountToMint.IsNil() && !epochAmount.IsNil()
+//@   invariant amountToMint == expS(m.Amount, m.AmountMultiplier, i)
+//@   invariant epochAmount == expE(m.Amount, m.AmountMultiplier, i - 1)
+//@   decreases numOfPassedEpochs - i
